@@ -271,6 +271,11 @@ func runRetryOne(o retryOp) (ans, oracle string, witness bool, hits []string) {
 			client.Close()
 		}
 	}
+	argvLog := map[int][][]string{}
+	var argvCalls []int
+	parkedCall := 0
+	parkedCh, gateCh := make(chan struct{}), make(chan struct{})
+	settled := make(chan struct{}, 4)
 	var slots, slots2 rueidis.RedisMessage
 	var served, retired bool
 	var servedMu sync.Mutex
@@ -297,6 +302,24 @@ func runRetryOne(o retryOp) (ans, oracle string, witness bool, hits []string) {
 		case isCmd(a, "ASKING"):
 			return okResult()
 		}
+		mu.Lock()
+		if i == 0 && e.call > 0 {
+			if _, seen := argvLog[e.call]; !seen { // argv of the whole batch as the connection consumes it
+				cp := make([][]string, len(e.cmds))
+				for j, x := range e.cmds {
+					cp[j] = append([]string(nil), x...)
+				}
+				argvLog[e.call] = cp
+				argvCalls = append(argvCalls, e.call)
+			}
+			if parkedCall > 0 && e.call > parkedCall {
+				select {
+				case settled <- struct{}{}: // a re-send reached the connection while Close() is in progress
+				default:
+				}
+			}
+		}
+		mu.Unlock()
 		idx := idxOf(a)
 		if idx < 0 || idx >= len(scripts) {
 			return okResult()
@@ -320,6 +343,14 @@ func runRetryOne(o retryOp) (ans, oracle string, witness bool, hits []string) {
 		}
 		events = append(events, ne)
 		mu.Unlock()
+		if first && o.close == "d"+strconv.Itoa(k) {
+			// this call stays pending until Close() tears the connection down (the fake's Close releases it)
+			mu.Lock()
+			parkedCall = k
+			mu.Unlock()
+			close(parkedCh)
+			<-gateCh
+		}
 		if first {
 			trigger(k)
 			if o.retire == strconv.Itoa(k) && addr == nodeA && client != nil {
@@ -453,7 +484,9 @@ func runRetryOne(o retryOp) (ans, oracle string, witness bool, hits []string) {
 	}
 	var results []rueidis.RedisResult
 	panicked := false
-	func() {
+	callDone := make(chan struct{})
+	doCall := func() {
+		defer close(callDone)
 		defer func() {
 			if r := recover(); r != nil {
 				panicked = true
@@ -477,7 +510,36 @@ func runRetryOne(o retryOp) (ans, oracle string, witness bool, hits []string) {
 			}
 			results = client.DoMultiCache(ctx, cs...)
 		}
-	}()
+	}
+	if strings.HasPrefix(o.close, "d") {
+		released := false
+		w.onClose = func(string) { // the client's Close() reached conn.Close(): the pending call fails now
+			mu.Lock()
+			first := !released
+			released = true
+			mu.Unlock()
+			if !first {
+				return
+			}
+			close(gateCh)
+			select { // wait until the released call has either been re-sent or has returned
+			case <-settled:
+			case <-callDone:
+			}
+		}
+		go doCall()
+		select {
+		case <-parkedCh:
+			mu.Lock()
+			closedFlag = true
+			mu.Unlock()
+			client.Close()
+		case <-callDone:
+		}
+		<-callDone
+	} else {
+		doCall()
+	}
 	if panicked {
 		return "panic", "", false, nil
 	}
@@ -620,6 +682,23 @@ func runRetryOne(o retryOp) (ans, oracle string, witness bool, hits []string) {
 		}
 		oracle = fmt.Sprintf("!resend mode=%s dis=%s items=%s", m, b01(o.dis), strings.Join(items, ","))
 	}
+	if (o.api == "multi" || o.api == "mcache") && o.mode != "cl" && len(argvCalls) > 0 {
+		same := true
+		base := argvLog[argvCalls[0]]
+		for _, k := range argvCalls[1:] {
+			cur := argvLog[k]
+			if len(cur) != len(base) {
+				same = false
+				continue
+			}
+			for j := range cur {
+				if strings.Join(cur[j], "\x00") != strings.Join(base[j], "\x00") {
+					same = false
+				}
+			}
+		}
+		hits = append(hits, fmt.Sprintf("argv:%d:%s", len(argvCalls), b01(same)))
+	}
 	return ans, oracle, witness, hits
 }
 
@@ -673,6 +752,17 @@ func emitRetry(c *Ctx, o retryOp) {
 	c.Emit(line, ans, interesting)
 	c.Hit(o.mode + ":" + o.api)
 	for _, h := range hits {
+		if strings.HasPrefix(h, "argv:") {
+			f := strings.Split(h, ":")
+			if f[1] != "1" { // the batch was handed to the connection more than once
+				c.Emit(fmt.Sprintf("!argv calls=%s same=%s", f[1], f[2]), "ok", false)
+				if f[2] != "1" {
+					c.Fail("retry:resent-batch-argv-changed", line,
+						"a batch that was sent again reached the connection with different argv than the first time (a command was recycled before the batch was completely written for the attempt that counts)")
+				}
+			}
+			continue
+		}
 		c.Hit(h)
 	}
 	if oracle != "" {
@@ -791,7 +881,64 @@ func emitNdc(c *Ctx, dis, dc bool) {
 	c.Hit("ndc")
 }
 
+// genBatchArgv: batches of the single / standalone / sentinel clients in which clean replies precede a
+// retryable error, so that the whole batch is sent again (suite `batchargv`, also part of `retry`)
+func genBatchArgv(c *Ctx) {
+	for _, mode := range []string{"single", "sa", "se"} {
+		for _, api := range []string{"multi", "mcache"} {
+			for _, sc := range [][]string{{"", "x"}, {"", "L"}, {"o", "x"}, {"", "", "x"}, {"", "x", "x"}, {"", "L", ""}, {"x", ""}, {"", "xx"}, {"", "xL"}, {"n", "x"}, {"", ""}, {"x", "x"}} {
+				for _, dl := range []int64{0, -1, 1000} {
+					for _, dis := range []bool{false, true} {
+						o := retryOp{mode: mode, api: api, dis: dis, ctx: "bg", close: "none", script: sc}
+						for range sc {
+							o.kinds = append(o.kinds, 'r')
+							o.delay = append(o.delay, []int64{dl})
+						}
+						emitRetry(c, o)
+					}
+				}
+			}
+		}
+	}
+}
+
+// genPendingClose: Close() while a call is pending on the connection; conn.Close() is what fails that call
+func genPendingClose(c *Ctx) {
+	for _, mode := range []string{"single", "sa"} {
+		for _, api := range []string{"do", "cache", "multi", "mcache"} {
+			kindSets := []string{"r", "w", "m"}
+			switch api {
+			case "multi":
+				kindSets = []string{"rr", "rw"}
+			case "cache":
+				kindSets = []string{"r"}
+			case "mcache":
+				kindSets = []string{"rr"}
+			}
+			for _, ks := range kindSets {
+				for _, sc := range []string{"x", "xo", "xx", "L", "o", "e", "X", "xL"} {
+					for _, cl := range []string{"d1", "d2"} {
+						for _, dl := range []int64{0, -1} {
+							o := retryOp{mode: mode, api: api, kinds: []byte(ks), ctx: "bg", close: cl}
+							for range ks {
+								o.delay = append(o.delay, []int64{dl})
+								o.script = append(o.script, sc)
+							}
+							emitRetry(c, o)
+						}
+					}
+				}
+			}
+		}
+	}
+}
+
 func init() {
+	suites["batchargv"] = suite{
+		rule:   "distinct op lines (client mode x DoMulti/DoMultiCache x reply scripts with clean replies ahead of a retryable error x RetryDelay x DisableRetry)",
+		run:    func(c *Ctx) { genBatchArgv(c) },
+		replay: replayRetry,
+	}
 	suites["amo"] = suite{
 		rule:   "distinct op lines (cluster entry point x command kinds x reply script x RetryDelay x DisableRetry x point at which a topology refresh removes the node in use)",
 		run:    func(c *Ctx) { genRetire(c) },
@@ -802,6 +949,8 @@ func init() {
 func runRetry(c *Ctx) {
 	modes := []string{"single", "sa", "se", "cl"}
 	genRetire(c)
+	genBatchArgv(c)
+	genPendingClose(c)
 	// ---- per-node clients handed out by clusterClient.Nodes(): DisableRetry x DisableCache
 	for _, dis := range []bool{false, true} {
 		for _, dc := range []bool{false, true} {
